@@ -103,6 +103,10 @@ v("se-trial-extent-one-short-for-slices", S, "order.stop if isinstance(order, sl
 v("ok-se-trial-extent-generous", S, "order.stop if isinstance(order, slice) else np.max(order, initial=0) + 1", "order.stop + 1 if isinstance(order, slice) else np.max(order, initial=0) + 2", [])
 # --------------------------------------------------------------------------- block_diagonalization.py
 B = "block_diagonalization"
+v("bd-symbols-sorted-on-the-way", B, "        return _sympy_to_BlockSeries(\n            operator,\n            symbols,\n", "        return _sympy_to_BlockSeries(\n            operator,\n            sorted(symbols, key=str),\n", ["C14", "C13"],
+  "seed C14-r7: the order of the caller's symbols is API")
+v("bd-symbols-as-list", B, "        return _sympy_to_BlockSeries(\n            operator,\n            symbols,\n", "        return _sympy_to_BlockSeries(\n            operator,\n            list(symbols),\n", [],
+  "an order-preserving copy")
 v("bd-unpack-blocks-hermitian-fill-default", B, "def _unpack_blocks(operator: BlockSeries, atol: float = 1e-12) -> BlockSeries:\n",
   "def _unpack_blocks(operator: BlockSeries, atol: float = 1e-12, hermitian: bool = True) -> BlockSeries:\n", ["C05", "C14"],
   "seed C05-r6: the new flag defaults to True and block_diagonalize's own call does not pass it",
@@ -259,6 +263,8 @@ v("ok-kpm-rescale-centre-rewritten", KP, "    b = (lmax + lmin) / 2.0", "    b =
 v("ok-kpm-rescale-width-rewritten", KP, "    a = np.abs(lmax - lmin) / (2.0 - eps)", "    a = np.abs(lmin - lmax) / (2 - eps)", [])
 # --------------------------------------------------------------------------- number_ordered_form.py
 N = "number_ordered_form"
+v("nof-coefficient-tested-for-number-operator-objects", N, "            if coeff.has(*self._number_operator_placeholders):", "            if coeff.has(NumberOperator):", ["C08", "C07"],
+  "seed C08-r7: stored coefficients hold placeholders, the test never finds a NumberOperator")
 v("nof-cancel-ladder-number", N, "            for p, op in zip(powers[self._n_inf_order :], binary_ops):\n",
   "            for p, op in zip(powers[self._n_bosons :], self.operators[self._n_bosons :]):\n", ["C16", "C07", "C01"],
   "seed C16-r6: the number operator of a ladder mode is unbounded, it does not vanish next to the ladder operator")
